@@ -29,6 +29,7 @@ struct TpFix {
 
 std::map<std::string, TpFix> l_Tp;
 std::vector<double> l_Pts;
+std::vector<std::string> l_Order;     // creation (= registration) order: the order in which the timer handler visits
 
 std::string RealName(const std::string& n) { return "c" + std::to_string(CaseId()) + "_" + n; }
 
@@ -83,9 +84,10 @@ TpFix& Get(const Args& a) { auto it = l_Tp.find(a.str("name")); if (it == l_Tp.e
 struct TpCaseEnd {
 	TpCaseEnd() {
 		RegisterCaseEnd([]() {
-			for (auto& kv : l_Tp) kv.second.tp->Unregister();
+			for (auto& kv : l_Tp) { kv.second.tp->SetActive(false, true); kv.second.tp->Unregister(); }
 			l_Tp.clear();
 			l_Pts.clear();
+			l_Order.clear();
 		});
 	}
 } l_TpCaseEnd;
@@ -167,6 +169,7 @@ VOP(tp_new)
 	f.tp->SetExcludes(exc, true);
 	f.tp->Register();
 	l_Tp[name] = f;
+	l_Order.push_back(name);
 }
 
 // tp_own name=<n> segs=b-e,b-e : what the (harness) update function returns from now on
@@ -215,6 +218,28 @@ VOP(tp_upd)
 	TpFix& f = Get(a);
 	f.tp->UpdateRegion(a.dbl("b"), a.dbl("e"), a.num("clear", 1) != 0);
 	Out(StateLine(a.str("name")));
+}
+
+// tp_start name=<n> : what TimePeriod::Start() does with the period under the virtual clock (pre-fill the next 24 hours);
+// the period counts as active from now on (the timer handler skips inactive objects)
+VOP(tp_start)
+{
+	TpFix& f = Get(a);
+	double now = Utility::GetTime();
+	f.tp->SetActive(true, true);
+	f.tp->UpdateRegion(now, now + 24 * 3600, true);
+	Out(StateLine(a.str("name")));
+}
+
+// tp_timer : one expiry of the 5-minute update timer - the REAL TimePeriod::UpdateTimerHandler() (all active periods, in
+// the order ConfigType hands them out = registration order); one state line per started period, in that order
+VOP(tp_timer)
+{
+	TimePeriod::UpdateTimerHandler();
+	for (auto& n : l_Order) {
+		if (l_Tp.at(n).tp->IsActive())
+			Out(StateLine(n));
+	}
 }
 
 // tp_now name=<n> : the is_inside attribute under the virtual clock
